@@ -100,7 +100,8 @@ func c04Replace(a *An, tf *tableFacts, addWith *ssa.Function, rule string) {
 	for _, l := range successLits(af.add) {
 		T = T.andLit(l)
 	}
-	T = T.andLit(Lit{A: &Atom{Kind: AkCmp, Subj: ep + "." + wdF, Op: "==", K: af.wdPath}, Neg: true})
+	eqA, eqB := eqOrder(ep+"."+wdF, af.wdPath)
+	T = T.andLit(Lit{A: &Atom{Kind: AkCmp, Subj: eqA, Op: "==", K: eqB}, Neg: true})
 	ops := collectTableOps(a, tf, w)
 	var delWd, delPath, rm DNF
 	for _, op := range ops {
